@@ -485,7 +485,7 @@ class EDXMLParserBase(object):
           event_source_uri (str): URI of the event source
 
         """
-        handlers = self.__event_type_handlers.get(event_type_name, [])
+        handlers = list(self.__event_type_handlers.get(event_type_name, []))
 
         # Add handlers for the event source
         for pattern, source_handlers in self.__event_source_handlers.items():
